@@ -3,6 +3,7 @@ import r_reset
 import r_share
 import r_map
 import r_codec
+import r_kind
 
 NA = {
     "C17": "first-match order of a backtracking trie matcher over runtime rule lists: no structural "
@@ -12,6 +13,7 @@ NA = {
 }
 
 PROPS = {
+    "XKIND": {"rules": [r_kind.run_all], "explanation": "debug: KIND only", "level_text": "", "level_note": "", "technique": ""},
     "C05": {
         "rules": [r_codec.run_c05],
         "explanation": "CODEC: for every hand-written bincode codec reachable from the dictionary "
